@@ -918,3 +918,282 @@ Proof.
   destruct (handout_bound rw n n' lr HI Hs H) as (_ & _ & A & _).
   destruct (A e Hin) as (_ & _ & B & _). rewrite Hl in B. lia.
 Qed.
+
+(* ------------------------------------------------------------------ *)
+(* 6. on_persist_ready: the record fold *)
+
+Fixpoint take_le (recs : list ready_record) (number : N) : list ready_record :=
+  match recs with
+  | [] => []
+  | rr :: rest => if number <? rr_number rr then [] else rr :: take_le rest number
+  end.
+
+Fixpoint drop_le (recs : list ready_record) (number : N) : list ready_record :=
+  match recs with
+  | [] => []
+  | rr :: rest => if number <? rr_number rr then recs else drop_le rest number
+  end.
+
+(* one step of the loop body on the accumulator (index, term, snap_index) *)
+Definition acc_step (a : N * N * N) (rr : ready_record) : N * N * N :=
+  let '(index, t, si) := a in
+  let '(index, t, si) := match rr_snapshot rr with
+                         | Some (i, _) => (0, 0, i)
+                         | None => (index, t, si)
+                         end in
+  let '(index, t) := match rr_last_entry rr with
+                     | Some (i, t2) => (i, t2)
+                     | None => (index, t)
+                     end in
+  (index, t, si).
+
+Definition acc_records (l : list ready_record) (a : N * N * N) : N * N * N :=
+  fold_left acc_step l a.
+
+Lemma take_drop_le recs number : recs = take_le recs number ++ drop_le recs number.
+Proof.
+  induction recs as [|rr rest IH]; [reflexivity|]. cbn.
+  destruct (number <? rr_number rr); [reflexivity|]. cbn. f_equal. exact IH.
+Qed.
+
+Lemma take_le_all recs number : Forall (fun rr => rr_number rr <= number) (take_le recs number).
+Proof.
+  induction recs as [|rr rest IH]; cbn; [constructor|].
+  destruct (number <? rr_number rr) eqn:E; [constructor|]. constructor; [lia|exact IH].
+Qed.
+
+Lemma drop_le_head recs number rr rest :
+  drop_le recs number = rr :: rest -> number < rr_number rr.
+Proof.
+  induction recs as [|a t IH]; cbn; [discriminate|].
+  destruct (number <? rr_number a) eqn:E; [|exact IH].
+  intros H. inversion H; subst. lia.
+Qed.
+
+Theorem fold_records_spec recs number i t si :
+  fold_records recs number i t si =
+  (let '(i', t', si') := acc_records (take_le recs number) (i, t, si) in
+   (drop_le recs number, i', t', si')).
+Proof.
+  revert i t si. induction recs as [|rr rest IH]; intros i t si; [reflexivity|].
+  cbn [fold_records take_le drop_le].
+  destruct (number <? rr_number rr); [reflexivity|].
+  cbn [acc_records fold_left]. unfold acc_step at 2.
+  destruct (rr_snapshot rr) as [[s st]|]; destruct (rr_last_entry rr) as [[ei et]|]; apply IH.
+Qed.
+
+(* numbers strictly increase along the queue (they are max_number + 1 at push) *)
+Fixpoint numbers_sorted (recs : list ready_record) : Prop :=
+  match recs with
+  | [] => True
+  | rr :: rest => Forall (fun r' => rr_number rr < rr_number r') rest /\ numbers_sorted rest
+  end.
+
+Lemma take_le_filter recs number :
+  numbers_sorted recs ->
+  take_le recs number = filter (fun rr => rr_number rr <=? number) recs
+  /\ drop_le recs number = filter (fun rr => number <? rr_number rr) recs.
+Proof.
+  induction recs as [|rr rest IH]; [split; reflexivity|]. intros [Hh Ht].
+  destruct (IH Ht) as [IH1 IH2]. cbn.
+  destruct (number <? rr_number rr) eqn:E.
+  - assert (E' : (rr_number rr <=? number) = false) by lia. rewrite E'.
+    assert (Hall : Forall (fun r' => number < rr_number r') rest).
+    { eapply Forall_impl; [|exact Hh]. cbn. intros a Ha. lia. }
+    split.
+    + clear - Hall. induction rest as [|a t IH]; [reflexivity|]. cbn.
+      inversion Hall; subst. assert (E : (rr_number a <=? number) = false) by lia.
+      rewrite E. apply IH. assumption.
+    + f_equal. clear - Hall. induction rest as [|a t IH]; [reflexivity|]. cbn.
+      inversion Hall; subst. assert (E : (number <? rr_number a) = true) by lia.
+      rewrite E. f_equal. apply IH. assumption.
+  - assert (E' : (rr_number rr <=? number) = true) by lia. rewrite E'.
+    split; [f_equal; exact IH1|exact IH2].
+Qed.
+
+(* what the accumulator holds *)
+Definition last_entry_of (l : list ready_record) (d : N * N) : N * N :=
+  fold_left (fun acc rr => match rr_last_entry rr with Some p => p | None => acc end) l d.
+
+Definition no_snap (rr : ready_record) : Prop := rr_snapshot rr = None.
+
+Lemma acc_records_app a b x : acc_records (a ++ b) x = acc_records b (acc_records a x).
+Proof. apply fold_left_app. Qed.
+
+Lemma acc_no_snap l i t si :
+  Forall no_snap l -> acc_records l (i, t, si) = (last_entry_of l (i, t), si).
+Proof.
+  revert i t. induction l as [|rr rest IH]; intros i t H; [reflexivity|].
+  inversion H; subst. cbn [acc_records fold_left last_entry_of].
+  unfold acc_step at 2. unfold no_snap in H2. rewrite H2.
+  destruct (rr_last_entry rr) as [[ei et]|]; apply IH; assumption.
+Qed.
+
+(* the last snapshot record resets (index, term) to (0, 0) and sets snap_index;
+   the entry record of that same Ready and of the later ones then count *)
+Lemma acc_last_snap pre rr post s st a :
+  rr_snapshot rr = Some (s, st) -> Forall no_snap post ->
+  acc_records (pre ++ rr :: post) a =
+  (last_entry_of post (match rr_last_entry rr with Some p => p | None => (0, 0) end), s).
+Proof.
+  intros Hs Hp. rewrite acc_records_app. cbn [acc_records fold_left].
+  destruct (acc_records pre a) as [[i t] si].
+  unfold acc_step at 2. rewrite Hs.
+  destruct (rr_last_entry rr) as [[ei et]|]; apply acc_no_snap; exact Hp.
+Qed.
+
+(* rn_on_persist_ready in terms of the fold *)
+Theorem on_persist_ready_spec n number n' :
+  rn_on_persist_ready n number = Ok n' ->
+  exists i t si r1,
+    acc_records (take_le (rn_records n) number) (0, 0, 0) = (i, t, si)
+    /\ rn_records n' = drop_le (rn_records n) number
+    /\ (if negb (si =? 0) then on_persist_snap (rn_raft n) si else Ok (rn_raft n)) = Ok r1
+    /\ (if negb (i =? 0) then on_persist_entries r1 i t else Ok r1) = Ok (rn_raft n')
+    /\ rn_prev_ss n' = rn_prev_ss n /\ rn_prev_hs n' = rn_prev_hs n
+    /\ rn_max_number n' = rn_max_number n
+    /\ rn_commit_since_index n' = rn_commit_since_index n.
+Proof.
+  unfold rn_on_persist_ready. rewrite fold_records_spec.
+  destruct (acc_records (take_le (rn_records n) number) (0, 0, 0)) as [[i t] si].
+  intros H. inv_bind H. inv_bind H. inversion H; subst; clear H.
+  exists i, t, si, x. cbn in *. repeat split; try reflexivity; assumption.
+Qed.
+
+(* ------------------------------------------------------------------ *)
+(* 7. commit_ready: the unstable part named by the last record becomes stable *)
+
+Local Arguments List.last : simpl never.
+
+Definition rr_default : ready_record := mkRR 0 None None false.
+
+(* the unstable state still is what the record says (nothing was appended or
+   restored between ready() and the advance call) *)
+Definition stable_ok (u : unstable) (rr : ready_record) : Prop :=
+  (forall i t, rr_snapshot rr = Some (i, t) ->
+     exists s, u_snapshot u = Some s /\ s_index s = i)
+  /\ (forall i t, rr_last_entry rr = Some (i, t) ->
+        (rr_snapshot rr = None -> u_snapshot u = None)
+        /\ u_entries u <> []
+        /\ e_index (List.last (u_entries u) (mkEntry 0 0 0 [] [])) = i
+        /\ e_term (List.last (u_entries u) (mkEntry 0 0 0 [] [])) = t).
+
+Definition stabilised (u : unstable) (rr : ready_record) : unstable :=
+  match rr_last_entry rr with
+  | Some (i, _) => mkUn None [] 0 (i + 1)
+  | None => match rr_snapshot rr with
+            | Some _ => mkUn None (u_entries u) (u_entries_size u) (u_offset u)
+            | None => u
+            end
+  end.
+
+Definition commit_prev (n : rawnode) (rd : ready) : rawnode :=
+  let n := match rd_ss rd with Some ss => n <| rn_prev_ss := ss |> | None => n end in
+  match rd_hs rd with Some hs => n <| rn_prev_hs := hs |> | None => n end.
+
+Lemma commit_prev_frame n rd :
+  rn_raft (commit_prev n rd) = rn_raft n /\ rn_records (commit_prev n rd) = rn_records n
+  /\ rn_max_number (commit_prev n rd) = rn_max_number n
+  /\ rn_commit_since_index (commit_prev n rd) = rn_commit_since_index n
+  /\ rn_prev_ss (commit_prev n rd) = match rd_ss rd with Some ss => ss | None => rn_prev_ss n end
+  /\ rn_prev_hs (commit_prev n rd) = match rd_hs rd with Some hs => hs | None => rn_prev_hs n end.
+Proof. unfold commit_prev. destruct (rd_ss rd), (rd_hs rd); repeat split; reflexivity. Qed.
+
+Theorem commit_ready_stabilises n rd n' :
+  commit_ready n rd = Ok n' ->
+  let rr := List.last (rn_records n) rr_default in
+  rn_records n <> []
+  /\ rr_number rr = rd_number rd
+  /\ stable_ok (unst (r_log (rn_raft n))) rr
+  /\ n' = (commit_prev n rd)
+            <| rn_raft := (rn_raft n)
+                 <| r_log := set_unst (r_log (rn_raft n))
+                                      (stabilised (unst (r_log (rn_raft n))) rr) |> |>.
+Proof.
+  unfold commit_ready. fold (commit_prev n rd).
+  destruct (commit_prev_frame n rd) as (F1 & F2 & _).
+  rewrite F2, F1. fold rr_default.
+  intros H.
+  destruct (rn_records n) as [|r0 rs] eqn:Er; [discriminate|]. rewrite <- Er in *.
+  set (rr := List.last (rn_records n) rr_default) in *.
+  destruct (rr_number rr =? rd_number rd) eqn:En; cbn [negb] in H; [|discriminate].
+  inv_bind H. inv_bind H. inversion H; subst n'; clear H.
+  split; [rewrite Er; discriminate|]. split; [apply N.eqb_eq; exact En|].
+  unfold stable_ok, stabilised.
+  destruct (rr_snapshot rr) as [[si st]|] eqn:Es.
+  - unfold stable_snap, u_stable_snap in Hx. 
+    destruct (u_snapshot (unst (r_log (rn_raft n)))) as [s|] eqn:Eu; [|discriminate].
+    destruct (s_index s =? si) eqn:Ei; cbn in Hx; [|discriminate].
+    inversion Hx; subst x; clear Hx.
+    destruct (rr_last_entry rr) as [[ei et]|] eqn:Ee.
+    + unfold stable_entries, u_stable_entries in Hx0. cbn in Hx0.
+      destruct (u_entries (unst (r_log (rn_raft n)))) as [|e0 es] eqn:Eue; [discriminate|].
+      match type of Hx0 with context [if ?c then _ else _] => destruct c eqn:Ec end; [discriminate|].
+      cbn in Hx0. inversion Hx0; subst x0; clear Hx0.
+      apply orb_false_elim in Ec. destruct Ec as [Ec1 Ec2].
+      apply negb_false_iff in Ec1, Ec2. apply N.eqb_eq in Ec1, Ec2.
+      split.
+      { split.
+        - intros i t Hi. inversion Hi; subst. exists s. split; [reflexivity|lia].
+        - intros i t Hi. inversion Hi; subst. split; [discriminate|]. split; [discriminate|].
+          split; reflexivity. }
+      unfold set_unst. cbn. rewrite Ec1. reflexivity.
+    + inversion Hx0; subst x0; clear Hx0.
+      split.
+      { split.
+        - intros i t Hi. inversion Hi; subst. exists s. split; [reflexivity|lia].
+        - intros i t Hi. discriminate. }
+      reflexivity.
+  - inversion Hx; subst x; clear Hx.
+    destruct (rr_last_entry rr) as [[ei et]|] eqn:Ee.
+    + unfold stable_entries, u_stable_entries in Hx0.
+      destruct (u_snapshot (unst (r_log (rn_raft n)))) as [s|] eqn:Eu; [discriminate|].
+      destruct (u_entries (unst (r_log (rn_raft n)))) as [|e0 es] eqn:Eue; [discriminate|].
+      match type of Hx0 with context [if ?c then _ else _] => destruct c eqn:Ec end; [discriminate|].
+      cbn in Hx0. inversion Hx0; subst x0; clear Hx0.
+      apply orb_false_elim in Ec. destruct Ec as [Ec1 Ec2].
+      apply negb_false_iff in Ec1, Ec2. apply N.eqb_eq in Ec1, Ec2.
+      split.
+      { split.
+        - intros i t Hi. discriminate.
+        - intros i t Hi. inversion Hi; subst. split; [reflexivity|]. split; [discriminate|].
+          split; reflexivity. }
+      unfold set_unst. cbn. rewrite Ec1. reflexivity.
+    + inversion Hx0; subst x0; clear Hx0.
+      split.
+      { split; intros i t Hi; discriminate. }
+      destruct (r_log (rn_raft n)); reflexivity.
+Qed.
+
+(* commit_ready panics exactly when there is no record, the number differs, or
+   the unstable state no longer matches the record *)
+Theorem commit_ready_ok_iff n rd :
+  (exists n', commit_ready n rd = Ok n') <->
+  rn_records n <> []
+  /\ rr_number (List.last (rn_records n) rr_default) = rd_number rd
+  /\ stable_ok (unst (r_log (rn_raft n))) (List.last (rn_records n) rr_default).
+Proof.
+  split.
+  - intros [n' H]. destruct (commit_ready_stabilises _ _ _ H) as (A & B & C & _). auto.
+  - intros (A & B & [C1 C2]). unfold commit_ready. fold (commit_prev n rd).
+    destruct (commit_prev_frame n rd) as (F1 & F2 & _).
+    rewrite F2, F1. fold rr_default.
+    destruct (rn_records n) as [|r0 rs] eqn:Er; [congruence|]. rewrite <- Er in *.
+    set (rr := List.last (rn_records n) rr_default) in *.
+    apply N.eqb_eq in B. rewrite B. cbn [negb].
+    destruct (rr_snapshot rr) as [[si st]|] eqn:Es.
+    + destruct (C1 si st eq_refl) as (s & Hs & Hi).
+      unfold stable_snap, u_stable_snap. rewrite Hs.
+      apply N.eqb_eq in Hi. rewrite Hi. cbn.
+      destruct (rr_last_entry rr) as [[ei et]|] eqn:Ee; [|cbn; eauto].
+      destruct (C2 ei et eq_refl) as (_ & D2 & D3 & D4).
+      unfold stable_entries, u_stable_entries. cbn.
+      destruct (u_entries (unst (r_log (rn_raft n)))) as [|e0 es] eqn:Eue; [congruence|].
+      apply N.eqb_eq in D3, D4. rewrite D3, D4. cbn. eauto.
+    + cbn [bind].
+      destruct (rr_last_entry rr) as [[ei et]|] eqn:Ee; [|cbn; eauto].
+      destruct (C2 ei et eq_refl) as (D1 & D2 & D3 & D4).
+      unfold stable_entries, u_stable_entries. rewrite (D1 eq_refl).
+      destruct (u_entries (unst (r_log (rn_raft n)))) as [|e0 es] eqn:Eue; [congruence|].
+      apply N.eqb_eq in D3, D4. rewrite D3, D4. cbn. eauto.
+Qed.
